@@ -95,6 +95,37 @@ func registerIntrinsics(e *Engine) {
 		st.minlen[s.S] = lo
 		return s
 	}
+	// vPred(name, arg): an uninterpreted predicate over strings (e.g. the
+	// directory tree); its interpretation is part of the counterexample.
+	I["vPred"] = func(st *State, a []Value) Value {
+		name := constStr(st, a[0], "predicate name")
+		arg := a[1].(*Term)
+		if !st.E.predDeclared[name] {
+			st.E.predDeclared[name] = true
+		}
+		if !st.predDecl[name] {
+			st.predDecl[name] = true
+			st.E.Solver.Cmd(fmt.Sprintf("(declare-fun %s (String) Bool)", name))
+			st.transcript = append(st.transcript, fmt.Sprintf("(declare-fun %s (String) Bool)", name))
+		}
+		st.preds = append(st.preds, predUse{Name: name, Arg: arg})
+		return mk(SBool, 0, "(%s %s)", name, arg.S)
+	}
+	I["vNondetWordN"] = func(st *State, a []Value) Value {
+		label := constStr(st, a[0], "nondet label")
+		cs := constStr(st, a[1], "charset")
+		lo := st.concreteInt(a[2], "min length")
+		hi := st.concreteInt(a[3], "max length")
+		s := st.FreshTerm(label, SString, 0)
+		st.nondets = append(st.nondets, NondetRec{Label: label, Name: s.S, Sort: SString, Kind: "string"})
+		st.assertTerm(mk(SBool, 0, "(str.in_re %s (re.* %s))", s.S, charsetRe(cs)))
+		st.assertTerm(IntLe(StrLen(s), IntT64(int64(hi))))
+		st.assertTerm(IntLe(IntT64(int64(lo)), StrLen(s)))
+		st.charset[s.S] = cs
+		st.maxlen[s.S] = hi
+		st.minlen[s.S] = lo
+		return s
+	}
 	I["vAssume"] = func(st *State, a []Value) Value {
 		st.Assume(a[0].(*Term))
 		return nil
